@@ -27,6 +27,7 @@ import (
 
 	"github.com/ethereum/go-ethereum/crypto"
 	"github.com/polynetwork/poly/common/log"
+	"github.com/polynetwork/poly/common/verifhook"
 	"github.com/polynetwork/poly/native/service/governance/node_manager"
 	"github.com/polynetwork/poly/native/service/header_sync/eth/rlp"
 	"golang.org/x/crypto/sha3"
@@ -280,6 +281,9 @@ func difficultyCalculator(time *big.Int, parent *Header) *big.Int {
 }
 
 func (this *ETHHandler) verifyHeader(header *Header, caches *Caches) error {
+	if verifhook.SkipSeal() {
+		return nil
+	}
 	// try to verfify header
 	number := header.Number.Uint64()
 	size := datasetSize(number)
